@@ -142,8 +142,8 @@ func runC19(c *Ctx) {
 	// ---- reader
 	type rcase struct {
 		n, bs, buf int
-		style     srcStyle
-		seed      uint64
+		style      srcStyle
+		seed       uint64
 	}
 	var rcs []rcase
 	rs := c.Rng("reader")
@@ -478,7 +478,9 @@ func runC19(c *Ctx) {
 			badCT := make([]byte, len(bad))
 			cipher.NewCBCEncrypter(refBlk, iv).CryptBlocks(badCT, bad)
 			var out bytes.Buffer
-			if pi := mon.Guard(func() { err = padding.P7BlockDecrypt(cipher.NewCBCDecrypter(bc.kind.mk(key), iv), bytes.NewReader(badCT), &out) }); pi != nil {
+			if pi := mon.Guard(func() {
+				err = padding.P7BlockDecrypt(cipher.NewCBCDecrypter(bc.kind.mk(key), iv), bytes.NewReader(badCT), &out)
+			}); pi != nil {
 				rep.Violation("C19/P7BlockDecrypt/panic/"+pi.Func+"/invalid-final-block", pi.Value, w)
 			} else if err == nil {
 				rep.Violation("C19/P7BlockDecrypt/accepts-invalid-final-block", fmt.Sprintf("final plaintext block %x", bad[len(bad)-bc.kind.bs:]), w)
